@@ -29,6 +29,10 @@ from ..loops import (analyse_retry_loop, contains_call_attr, UnrollMixin, Unboun
 from ..poly import Sym
 from ..model import AnalysisError
 
+# loops the engines summarise on purpose (retry / pause / enumeration loops are judged by the
+# loop rules of this check, not by unrolling)
+EXPECTED_GAPS = {('loop', '*')}
+
 NO_OK = ('a', 'i', 'mr', 'pi', 'qm', 'qg', 'v')        # documented queries without a trailing OK
 OK_QUERIES = ('qb', 'qp', 'qs', 'qc', 'ql', 'qt', 'qe', 'qr', 'zz')   # ordinary (OK-terminated)
 RETRY_BOUND = 100
